@@ -174,6 +174,12 @@ static void op_frame(const V &a, V &r) {
       for (int i = 0; i < n; i++) x->a[i] = 0; x->b = 1 << 29; sx = snap(x, n);
       tfhe_bootstrap_FFT(res, bf, 1 << 29, x); check(snap(x, n) == sx, hk, g0);                              // 17 tfhe_bootstrap_FFT (trivial input)
       delete_TorusPolynomial(zp); delete_TLweSample(tr); delete_TLweSample(tz); }
+    // 18: a gate and a bootstrapping as the FIRST use of the FFT on a fresh thread (whatever the thread's FFT state needs when it is built, it is not
+    //     drawn from the library's generator; inputs and keys untouched as before)
+    { for (int i = 0; i < n; i++) x->a[i] = (int32_t) rg(); x->b = (int32_t) rg(); sx = snap(x, n);
+      LweSample *o2 = new_LweSample(cur.params->in_out_params);
+      std::thread t([&]() { bootsNAND(o2, x, x, &cur.sk->cloud); tfhe_bootstrap_FFT(res, bf, 1 << 29, x); }); t.join();
+      check(snap(x, n) == sx, hk, g0); delete_LweSample(o2); }
     delete_IntPolynomial_array(gp->kpl, dec); delete_TorusPolynomial(tv); delete_TLweSample(acc0); delete_TLweSample(acc);
     delete_LweSample(u); delete_LweSample(res); delete_LweSample(x);
 }
